@@ -12,6 +12,10 @@ CLAIMED = {
          "Static decision, for all 65 registered message types and all field values at once, that the wire layout built by encode and parsed by decode equals the 9P2000.L/.Google.N layout (numbering, field order, widths, string/list framing, permission masking, mask bit tables, header, payload counts, whole-entry truncation) and that decode assigns every wire item to the field encode wrote it from. Right level: the codecs are straight-line code, so layout is a static object; values never influence it.",
          "Trusts encoding/binary little-endian, the reference table transcribed from the protocol documents into checker/c01.go, and the accepted-idiom list of the extractor (anything else is reported as undecided). Strings/lists > 65535 outside the property's range. Does not execute the codec.",
          "DESIGN.md section 4 C01, section 3 A"),
+ "C07": ("lock-context analysis (must-held lock sets per call site; wrapper summaries, closure inlining, interprocedural entry contexts) against the concurrency classes documented on p9.File",
+         "Static decision, for every call site of a p9.File method in the server and for all interleavings and connections at once, that the lock set held on every path contains what the method's documented concurrency class requires (read: the node's opMu + renameMu:R; write: opMu:W + renameMu:R; unlink: also the entry's node; global: renameMu:W), that Open's opened-test and opened-store share one region exclusive for the fid, that parent/opened/openFlags are only touched under their documented locks, and that all references on one path share one path node. Right level: mutual exclusion is a property of which locks are held where, visible in the code shape; no schedule needs to be run.",
+         "Trusts sync.RWMutex semantics; lock instances are compared structurally after resolving single-assignment local aliases (no pointer analysis available); backends are opaque; calls on a fresh, unpublished File are exempt. Does not decide liveness (C16).",
+         "DESIGN.md section 4 C07, section 3 B"),
 }
 
 NOT_YET = "check not built yet (work in progress; DESIGN.md section 4 describes the planned static rules)"
